@@ -377,6 +377,97 @@ class C01(Prop):
                                    'the peer sent under their ids'))
         ctx['extra_evals'] += ns
         ctx['notes'].append(f'one request timing out on a real RPCSession while others are outstanding: {ns} scenarios')
+        # on a real RPCSession: (a) answers of every kind - result, error object, malformed response with a recoverable id -
+        # reach their callers unchanged also while the session is lowering its outgoing concurrency; (b) responses that
+        # answer nothing outstanding (unused id, replayed single, replayed batch) are refused without disturbing the requests that are
+        from aiorpcx import RPCError, ProtocolError
+        nr = 0
+        for transport in ('rs', 'us'):
+            for scenario in ('lowered_concurrency', 'stray_responses'):
+                loop = sessions.new_loop()
+                try:
+                    proto, ft, s = sessions.attach(session_mod.RPCSession, 'client', transport)
+                    res = {}
+
+                    async def call2(name, coro_fn):
+                        try:
+                            res[name] = ['result', await coro_fn()]
+                        except RPCError as e:
+                            res[name] = ['RPCError', e.code, e.message]
+                        except ProtocolError as e:
+                            res[name] = ['ProtocolError', e.code]
+                        except asyncio.CancelledError:
+                            res[name] = ['cancelled']
+                        except Exception as e:
+                            res[name] = ['other', type(e).__name__]
+
+                    async def batch2():
+                        async with s.send_batch() as b:
+                            b.add_request('m', ['b1'])
+                            b.add_request('m', ['b2'])
+                        return [r if not isinstance(r, Exception) else ['exc', type(r).__name__, getattr(r, 'code', None)] for r in b.results]
+
+                    def send(obj):
+                        proto.data_received(json.dumps(obj).encode() + b'\n')
+
+                    async def main2():
+                        await sessions.settle(3)
+                        names = ['r%d' % i for i in range(8)]
+                        tasks = [loop.create_task(call2(nm_, (lambda nm_=nm_: s.send_request('m', [nm_])))) for nm_ in names]
+                        tasks.append(loop.create_task(call2('B', batch2)))
+                        await asyncio.sleep(0.2)
+                        ids = {}
+                        for m_ in sessions.sent_messages(ft, 0):
+                            for x in (m_ if isinstance(m_, list) else [m_]):
+                                ids[x['params'][0]] = x['id']
+                        want = {}
+                        if scenario == 'lowered_concurrency':
+                            s._outgoing_concurrency.set_target(2)
+                        else:
+                            send({'jsonrpc': '2.0', 'id': 987654, 'result': 'nobody asked'})
+                            await asyncio.sleep(0.05)
+                            send({'jsonrpc': '2.0', 'id': ids['r0'], 'result': 'for r0'})
+                            await asyncio.sleep(0.05)
+                            send({'jsonrpc': '2.0', 'id': ids['r0'], 'result': 'replayed'})
+                            await asyncio.sleep(0.05)
+                            send([{'jsonrpc': '2.0', 'id': 555, 'result': 1}, {'jsonrpc': '2.0', 'id': 556, 'result': 2}])
+                            await asyncio.sleep(0.05)
+                            send({'jsonrpc': '2.0', 'id': None, 'error': {'code': 3, 'message': 'diagnostic'}})
+                            await asyncio.sleep(0.05)
+                            want['r0'] = ['result', 'for r0']
+                        for i, nm_ in enumerate(names):
+                            if nm_ in want:
+                                continue
+                            kind = i % 3
+                            if kind == 0:
+                                send({'jsonrpc': '2.0', 'id': ids[nm_], 'result': 'for ' + nm_})
+                                want[nm_] = ['result', 'for ' + nm_]
+                            elif kind == 1:
+                                send({'jsonrpc': '2.0', 'id': ids[nm_], 'error': {'code': 40 + i, 'message': 'no ' + nm_}})
+                                want[nm_] = ['RPCError', 40 + i, 'no ' + nm_]
+                            else:
+                                send({'jsonrpc': '2.0', 'id': ids[nm_], 'result': 1, 'error': {'code': 1, 'message': 'both'}})
+                                want[nm_] = ['ProtocolError', -32600]
+                            await asyncio.sleep(0.05)
+                        send([{'jsonrpc': '2.0', 'id': ids['b2'], 'error': {'code': 9, 'message': 'no b2'}}, {'jsonrpc': '2.0', 'id': ids['b1'], 'result': 'for b1'}])
+                        want['B'] = ['result', ['for b1', ['exc', 'RPCError', 9]]]
+                        await asyncio.sleep(0.3)
+                        await asyncio.wait(tasks, timeout=10)
+                        for t in tasks:
+                            t.cancel()
+                        return dict(res), want, not proto._process_messages_task.done()
+                    obs2, want2, alive = loop.run_until_complete(main2())
+                finally:
+                    sessions.close_loop(loop)
+                nr += 1
+                if obs2 != want2 or not alive:
+                    out.append(Failure({'kind': 'session_answers', 'scenario': scenario, 'transport': transport},
+                                       {'outcomes': jv.to_plain(obs2), 'expected': jv.to_plain(want2), 'message_loop_alive': alive},
+                                       ('while the session was lowering its outgoing concurrency, ' if scenario == 'lowered_concurrency' else
+                                        'after responses that answer nothing outstanding (unused id, replayed single, unsolicited batch, diagnostic error), ')
+                                       + 'the outstanding requests did not each complete with exactly the result / error the peer sent under their ids'))
+        ctx['extra_evals'] += nr
+        ctx['notes'].append(f'answers of every kind on a real RPCSession while its outgoing concurrency is lowered, and after stray responses: {nr} scenarios')
         return out
 
     def nontrivial(self, case, obs):
